@@ -57,7 +57,11 @@ def config(draw, reuse=None):
                 blank_lines=draw(st.sampled_from([0, 0, 2, 5])),
                 # round 9: typedefs written compactly (all members on one line / two per line), bit numbers padded with zeros or signed
                 typedef_style=draw(st.sampled_from(['lines', 'lines', 'one-line', 'two-per-line'])),
-                bitfmt=draw(st.sampled_from(['%2d', '%2d', '%d', '%02d', '%03d', '+%d'])))
+                bitfmt=draw(st.sampled_from(['%2d', '%2d', '%d', '%02d', '%03d', '+%d'])),
+                # round 10: fields separated by a tab / tab and blanks (the official sdssMaskbits.par mixes both); a masktype typedef that
+                # parses (no braces in its comment) with a width column that is a remark, not a constraint on the bit numbers
+                fieldsep=draw(st.sampled_from([None, None, '\t', '\t ', ' \t', '\t\t'])), masktype_plain=draw(st.booleans()),
+                masktype_width=draw(st.sampled_from([64, 32, 16, 8])))
 
 
 def mixcase(draw, s):
@@ -110,7 +114,7 @@ def render(cfg):
         bits_decl = [bits_decl[2], bits_decl[0], bits_decl[1]]
     lines = ['#%yanny', '# generated maskbits file', '', 'typedef struct {'] + bits_decl + [
              '    char description[100]; # text description', '} maskbits;', '', 'typedef struct {',
-             '    char flag[20]; # Flag name', '    short datatype; # Data type {8, 16, 32, 64}',
+             '    char flag[20]; # Flag name', '    short datatype; # Data type 8, 16, 32 or 64' if cfg.get('masktype_plain') else '    short datatype; # Data type {8, 16, 32, 64}',
              '    char description[100]; # text description', '} masktype;', '']
     if cfg.get('alias_typedef', True):
         adecl = ['    char flag[20]; # Flag (real) name', '    char alias[20]; # Alias']
@@ -145,9 +149,16 @@ def render(cfg):
                 rows.append('maskbits %s %s %s    "bit %d of %s; a #description"' % (g['name'], bf % b, l, b, g['name']))
     rows = [rows[i] for i in cfg['order']]
     for i, g in enumerate(cfg['groups'] if cfg.get('masktype_rows', True) else []):
-        rows.insert((7 * i) % (len(rows) + 1), 'masktype %s 64 "the %s group"' % (g['name'], g['name']))
+        rows.insert((7 * i) % (len(rows) + 1), 'masktype %s %d "the %s group"' % (g['name'], cfg.get('masktype_width', 64), g['name']))
     for j, (a, t) in enumerate(cfg['aliases']):
         rows.insert(min(3 * j + 1, len(rows)), 'maskalias %s %s "%s is a synonym for %s."' % ((a, t, a, t) if swap_alias else (t, a, a, t)))      # ascending positions: declaration order kept
+    fs = cfg.get('fieldsep')
+    if fs:
+        def resep(r):
+            q = r.find('"')
+            head, tail = (r[:q], r[q:]) if q > 0 else (r, '')
+            return fs.join(head.split()) + (fs if tail else '') + tail
+        rows = [resep(r) for r in rows]
     # some rows indented (blanks / tab), some without the trailing description text
     ind = cfg.get('indent', 0)
     if ind:
